@@ -14,7 +14,7 @@ use crate::framework::{CaseResult, Facts, Verdict};
 use crate::simuser::*;
 use proto_vulcan::operator::{cond, conda, condu, dfs, matcha, matchu, onceo};
 use proto_vulcan::prelude::*;
-use proto_vulcan::relation::member;
+use proto_vulcan::relation::{append, member};
 use proto_vulcan::state::State;
 use proto_vulcan::stream::Stream;
 use std::rc::Rc;
@@ -351,7 +351,27 @@ fn diseq_var_var(q: PTerm) -> PGoal {
     proto_vulcan!(|x, y| { x != y, member(x, [1, 2]), member(y, [1, 2]), project |x, y| { combine(x, y, q) } })
 }
 
+fn char_is_not_a_string(q: PTerm) -> PGoal {
+    proto_vulcan!(|x| { x == 'a', x != "a", conde { [x == "a", q == 0], [x == 'a', q == 1] } })
+}
+
+fn char_and_string_in_lists(q: PTerm) -> PGoal {
+    proto_vulcan!(|x| { member(x, ['b', "b", "bb"]), x != "b", conde { [x == 'b', q == 1], [x == "bb", q == 2] } })
+}
+
 // ---------------------------------------------------------------------------------- C06
+fn append_non_list_to_empty(q: PTerm) -> PGoal {
+    proto_vulcan!(|l, r| { l == 5, conde { [append(l, [], r), q == 1], [q == 2] } })
+}
+
+fn append_improper_to_empty(q: PTerm) -> PGoal {
+    proto_vulcan!(|r| { conde { [append([1, 2 | 3], [], r), q == 1], [q == 2] } })
+}
+
+fn append_to_empty(q: PTerm) -> PGoal {
+    proto_vulcan!(|r| { append([1, 2], [], r), member(q, r) })
+}
+
 fn for_loop_collection(q: PTerm) -> PGoal {
     let a: PTerm = LTerm::var("a");
     let b: PTerm = LTerm::var("b");
@@ -550,6 +570,11 @@ pub fn corpus() -> Vec<Entry> {
         e("strings-and-booleans", "C02", false, strings_and_bools, &[1, 1]),
         e("disequality-two-pairs", "C02", false, diseq_two_pairs, &[14, 32, 34]),
         e("disequality-var-var", "C02", false, diseq_var_var, &[12, 21]),
+        e("char-is-not-a-string", "C02", false, char_is_not_a_string, &[1]),
+        e("char-and-string-in-lists", "C02", false, char_and_string_in_lists, &[1, 2]),
+        e("append-non-list-to-empty", "C06", false, append_non_list_to_empty, &[2]),
+        e("append-improper-list-to-empty", "C06", false, append_improper_to_empty, &[2]),
+        e("append-to-empty", "C06", false, append_to_empty, &[1, 2]),
         e("for-loop-collection", "C06", false, for_loop_collection, &[1, 2]),
         e("match-three-terms", "C06", false, match_three_terms, &[1, 1, 9]),
         e("match-nested-pattern", "C06", false, match_nested_pattern, &[0, 1, 2, 3, 4]),
